@@ -61,6 +61,9 @@ class Cfg(object):
         self.always_enter_obs = tape.choose(4) == 1
         self.max_funcs = 1 + tape.choose(4)
         self.max_depth = 2 + tape.choose(3)
+        # recursion: a function may call itself (bounded by W.rbudget), so that several
+        # frames - and several generator-likes - share one code object
+        self.on["recurse"] = tape.choose(3) == 2
         for k, v in force.items():
             if k in self.on:
                 self.on[k] = v
@@ -367,6 +370,10 @@ class Gen(object):
                 compat.append(g)
             elif fn.kind == "sync" and g.kind == "sync":
                 compat.append(g)
+        if self.on("recurse") and fn.kind in ("coro", "agen", "gen", "gbcoro", "sync") and t.choose(3) == 0:
+            self.emit(fn, ind, "if W.rbudget(%d):" % (1 + t.choose(3)))
+            ind += 1
+            compat = [fn]
         if not compat:
             self.emit(fn, ind, "pass")
             return
